@@ -96,8 +96,9 @@ type cliCase struct {
 	rawInput      bool
 	raw0          bool
 	decode        string // "", "probe", "json"
-	decodeInGroup bool   // -d rides at the end of a combined short flag group
-	decodeEq      bool   // =VALUE form
+	ddashAt       int
+	decodeInGroup bool // -d rides at the end of a combined short flag group
+	decodeEq      bool // =VALUE form
 	args          [][2]string
 	argjson       [][2]string
 	rawfile       [][2]string // name, path
@@ -202,12 +203,16 @@ func (c *cliCase) argv(inputs []cliInput) []string {
 		return a
 	}
 	a = append(a, flags...)
-	if c.ddash {
-		a = append(a, "--")
-	}
-	a = append(a, c.prog.src)
+	pos := []string{c.prog.src}
 	for _, in := range inputs {
-		a = append(a, in.name)
+		pos = append(pos, in.name)
+	}
+	for i, p := range pos {
+		// "--" ends option parsing wherever it stands: before the program or between positionals
+		if c.ddash && i == c.ddashAt%len(pos) {
+			a = append(a, "--")
+		}
+		a = append(a, p)
 	}
 	return a
 }
@@ -303,7 +308,11 @@ func (*hcli) Run(rc *core.RunCtx) *core.RunResult {
 	c.decode = []string{"", "", "", "probe", "json"}[t.Intn(5)]
 	c.decodeInGroup = t.Intn(3) == 0
 	c.decodeEq = t.Intn(2) == 0
-	c.ddash = t.Intn(5) == 0
+	c.ddash = t.Intn(4) == 0
+	c.ddashAt = 0
+	if t.Intn(2) == 0 {
+		c.ddashAt = t.Intn(5)
+	}
 	c.combine = t.Intn(2) == 0
 	c.mono = t.Intn(6) == 0
 	c.benign = t.Intn(2) == 0
@@ -515,7 +524,11 @@ func (*hcli) Run(rc *core.RunCtx) *core.RunResult {
 	// ---- oracle 3: jq-compatible modes against the reference engine ------
 	allJSON := true
 	for _, in := range consumed {
-		if in.kind != inJSON {
+		switch {
+		case in.kind == inJSON:
+		case c.rawInput && !c.slurp && (in.kind == inMissing || in.kind == inDir || in.kind == inEACCES):
+			// raw input: a file that cannot be opened contributes no lines
+		default:
 			allJSON = false
 		}
 	}
@@ -593,8 +606,20 @@ func (c *cliCase) expected() ([]byte, bool) {
 		}
 		inputs = []any{arr}
 	case c.rawInput:
-		// raw input hands each file over as one string (fq: whole file, newline stripped per line?)
-		return nil, false
+		// like jq: all files form one stream of lines (failing files contribute nothing)
+		var sb strings.Builder
+		for _, in := range c.inputs {
+			if in.kind == inJSON {
+				sb.WriteString(in.text + "\n")
+			}
+		}
+		all := strings.TrimSuffix(sb.String(), "\n")
+		if all == "" && sb.Len() == 0 {
+			return nil, false
+		}
+		for _, l := range strings.Split(all, "\n") {
+			inputs = append(inputs, l)
+		}
 	default:
 		for _, in := range c.inputs {
 			inputs = append(inputs, normJSON(in.val))
